@@ -18,8 +18,9 @@ ASSUMPTIONS = ['Mach band: variation of the speed of sound over +-(30 ft + one s
 
 LAPSE_K_PER_FT = 0.0019812
 A_CONST = 49.0223  # fps per sqrt(Rankine); ISA: sqrt(1.4*287.05287*5/9)/0.3048 = 49.0221
-ATMOS = {'icao': 'icao', 'icao5k': 'icao5k', 'hot': [1000.0, 27.0, 100.0, 50], 'vac5k': 'vac5k'}
-BULLETS = {'full': (168.0, 0.308, 1.282), 'nolength': (168.0, 0.308, 0.0), 'noweight': (0.0, 0.308, 1.2), 'nodiameter': (168.0, 0.0, 1.282)}
+ATMOS = {'icao': 'icao', 'icao5k': 'icao5k', 'hot': [1000.0, 27.0, 100.0, 50, 20.0], 'vac5k': 'vac5k'}     # hot: powder temperature 20 F given, air 100 F
+BULLETS = {'full': (168.0, 0.308, 1.282), 'nolength': (168.0, 0.308, 0.0), 'noweight': (0.0, 0.308, 1.2), 'nodiameter': (168.0, 0.0, 1.282),
+           'multi': (168.0, 0.308, 1.282)}      # multi: the same bullet described by a multi-BC drag model
 
 
 def miller(tw, w, d, l, mv, t_f, p_inhg):
@@ -37,9 +38,16 @@ def _shot(look, atmo, tw, bullet, mv=2750.0, extra=None):
     U = pb.Unit
     w, d, l = BULLETS[bullet]
     dm = pb.DragModel(0.223, pb.TableG7, U.Grain(w), U.Inch(d), U.Inch(l))
+    if bullet == 'multi':
+        dm = pb.DragModelMultiBC([pb.BCPoint(0.223, Mach=2.0), pb.BCPoint(0.21, Mach=1.0)], pb.TableG7, U.Grain(w), U.Inch(d), U.Inch(l))
     at = pb.Vacuum(U.Foot(5000), U.Celsius(-10)) if atmo == 'vac5k' else make_atmo(ATMOS[atmo])
     ex = extra or {}
     winds = [pb.Wind(U.MPH(12), U.Degree(70), U.Yard(200)), pb.Wind(U.MPH(6), U.Degree(250))] if ex.get('wind') else None
+    if ex.get('back'):
+        # rows BEHIND the muzzle: lofted into a 60 mph head wind that carries the projectile back over the shooter (87 deg), or fired backwards (100 deg)
+        winds = [pb.Wind(U.MPH(60), U.Degree(180))] if ex['back'] == 'blown' else None
+        return pb.Shot(pb.Weapon(U.Inch(2), U.Inch(tw), U.Degree(2)), pb.Ammo(dm, U.FPS(200.0)), look_angle=U.Degree(look),
+                       relative_angle=U.Degree(85.0 if ex['back'] == 'blown' else 98.0), atmo=at, winds=winds)
     return pb.Shot(pb.Weapon(U.Inch(2), U.Inch(tw), U.Degree(2)), pb.Ammo(dm, U.FPS(mv)), look_angle=U.Degree(look), cant_angle=U.Degree(ex.get('cant', 0.0)),
                    relative_angle=U.MOA(ex.get('rel', 0.0)), atmo=at, winds=winds)
 
@@ -60,6 +68,12 @@ def _rows(calc, shot, mode):
         return None
     if mode == 'trace':
         return step_trace(calc, shot, 300.0, True)
+    if mode == 'back':
+        c2 = make_calc({'cMinimumVelocity': 0.0, 'cMinimumAltitude': -1e9, 'cMaximumDrop': -60.0})
+        try:
+            return step_trace(c2, shot, 300.0, True)
+        except pb.RangeError as e:
+            return e.incomplete_trajectory
     raise ValueError(mode)
 
 
@@ -90,13 +104,13 @@ def rows(cell):
     alt0 = at.altitude >> U.Foot
     t0_k = at.temperature >> U.Kelvin
     vacuum = (at.pressure >> U.InHg) == 0
-    S = 0.0 if vacuum else miller(tw, w, d, l, 2750.0, at.temperature >> U.Fahrenheit, at.pressure >> U.InHg)
+    S = 0.0 if vacuum else miller(tw, w, d, l, 200.0 if (ex or {}).get('back') else 2750.0, at.temperature >> U.Fahrenheit, at.pressure >> U.InHg)
 
     def a_ref(alt):
         tk = t0_k - LAPSE_K_PER_FT * (alt - alt0)
         return A_CONST * math.sqrt(tk * 9 / 5)
 
-    trace = step_trace(calc, shot0, (max(r.distance >> U.Foot for r in R) + 1.0), True) if mode != 'trace' else R0
+    trace = step_trace(calc, shot0, (max(r.distance >> U.Foot for r in R) + 1.0), True) if mode not in ('trace', 'back') else R0
     tx = [r.distance >> U.Foot for r in trace]
     import bisect
     for i, (r, r0) in enumerate(zip(R, R0)):
@@ -123,7 +137,7 @@ def rows(cell):
         ld_ref = x / math.cos(lar)
         if abs((r.look_distance >> U.Foot) - ld_ref) > 1e-12 * max(1.0, abs(ld_ref)):
             bad(f'row {i}: look_distance {r.look_distance >> U.Foot!r}, geometry gives {ld_ref!r}')
-        if x > 0:
+        if x != 0:      # also behind the muzzle (x < 0): the geometry of (distance, height, look angle) is the same formula
             da_ref = math.atan(y / x) - lar
             wa_ref = math.atan(wd / x)
             if abs((r.drop_adj >> U.Radian) - da_ref) > 1e-12:
@@ -142,9 +156,16 @@ def rows(cell):
         if not ok:
             bad(f'row {i} (t={t:.4f} s): windage minus windage without twist = {sd!r} ft, Litz/Miller give {exp!r} ft (Sg={S:.4f})')
         # angle = direction of the velocity (from the step trace: position update is v_new * dt)
-        k = bisect.bisect_left(tx, x - 1e-9 * max(1.0, x))
+        k = bisect.bisect_left(tx, x - 1e-9 * max(1.0, x)) if mode != 'back' else i      # back: the rows ARE the step trace (x is not monotone there)
         ang = r.angle >> U.Radian
-        if 1 <= k < len(trace):
+        if mode == 'back':
+            if 1 <= i < len(trace) - 1:       # (the terminal row of an incomplete trajectory is built outside the filter: excluded)
+                dx, dy = tx[i] - tx[i - 1], (trace[i].height >> U.Foot) - (trace[i - 1].height >> U.Foot)
+                want = math.atan2(dy, dx)
+                dev = abs((ang - want + math.pi) % (2 * math.pi) - math.pi)
+                if dev > 1e-6:
+                    bad(f'row {i} at x={x:.3f} ft (moving {"up" if dx < 0 else "down"}-range): angle {ang!r} rad, direction of motion in the step trace {want!r}')
+        elif 1 <= k < len(trace):
             def seg(j):
                 return math.atan2((trace[j].height >> U.Foot) - (trace[j - 1].height >> U.Foot), tx[j] - tx[j - 1])
             exact = abs(tx[k] - x) <= 1e-9 * max(1.0, x)
@@ -240,5 +261,6 @@ def plan(tier):
     ru = [[a, b] for a in variants for b in variants]
     cells += [[lk, a, tw, 'full', mode, ex] for lk in (0.0, 20.0) for a in ('icao', 'hot') for tw in (12.0, -8.0) for mode in ('plain', 'extra', 'incomplete')
               for ex in ({'wind': True}, {'cant': 30.0, 'rel': 10.0}, {'wind': True, 'cant': -20.0})]
+    cells += [[0.0, a, tw, 'full', 'back', {'back': b}] for a in ('icao', 'hot') for tw in (12.0, 0.0) for b in ('blown', 'reverse')]
     pw = [[m, t, tw, a] for m in (0.02, -0.015, 0.0) for t in (35.0, -10.0, 15.0) for tw in (12.0, -8.0) for a in ('icao', 'hot')]
     return [('rows', cells), ('reuse', ru), ('powder', pw)]
